@@ -190,7 +190,7 @@ CLAIMED = {
          "remapping and of VarStore.subset_varidxes, tied to the subset/varStore methods by differential runs (closure on GSUB tables compiled "
          "by feaLib from generated programs). Theorems: the computed closure contains the request and is closed under every substitution and "
          "ligature subtable of every directly applied lookup, for any lookup graph; on a closed set the subset lookup rewrites every retained "
-         "glyph, hence every text, exactly as the original; class remapping preserves the class partition of retained glyphs; every used "
+         "glyph, hence every text, exactly as the original; a subset ligature subtable shapes every retained text as the original does (earlier ligatures still win; the subtable's reading is tied to HarfBuzz); class remapping preserves the class partition of retained glyphs; every used "
          "variation index is mapped to a row holding the same deltas. All other tables (glyf/CFF/gvar/HVAR/GPOS/GDEF/cmap...) are checked on "
          "the implementation by subsetting corpus fonts and generated feature programs and comparing every text over the request, outlines and "
          "advances at several locations through HarfBuzz (testing).",
